@@ -72,6 +72,13 @@ CHECKS = {
 NOT_YET = {}
 
 def main():
+    import sys
+    sys.path.insert(0, os.path.dirname(os.path.abspath(__file__)))
+    import manifest_texts
+    for pid, t in manifest_texts.TEXT.items():
+        CHECKS[pid]["text"] = t
+    for pid, t in manifest_texts.TECH.items():
+        CHECKS[pid]["technique"] = t
     props = [json.loads(l) for l in open(os.path.join(HERE, "properties.jsonl"))]
     checks, na = [], []
     for p in props:
